@@ -6,6 +6,15 @@ package dht
 // file read by /verif/govc; no executable content.
 
 /*@
+# configuration and identity fields are written by the constructor only
+# (checked structurally: no assignment outside composite literals / constructors)
+immutable field IpfsDHT.bucketSize
+immutable field IpfsDHT.alpha
+immutable field IpfsDHT.beta
+immutable field IpfsDHT.self
+immutable field query.dht
+immutable field query.key
+
 # ---- lookup state (C01, C02, C03) -----------------------------------------
 # dist(qp,p): distance of member p; notU: state is not PeerUnreachable
 pred pdist(qp *qpeerset.QueryPeerset, p peer.ID) = bigval(qp.all[qp.$idx[p]].distance)
@@ -326,4 +335,122 @@ func (os *optimisticState) waitForRPCs()
   props C03
   modifies *
   loop 0 invariant [a-completion-is-owed] rpcCount >= 1
+
+# ---- provider search (C08) ---------------------------------------------------------
+role psTryAdd(p peer.AddrInfo) bool in (dht *IpfsDHT) findProvidersAsyncRoutine(ctx context.Context, key multihash.Multihash, count int, peerOut chan peer.AddrInfo)
+  modifies *ps
+role psSize() int in (dht *IpfsDHT) findProvidersAsyncRoutine(ctx context.Context, key multihash.Multihash, count int, peerOut chan peer.AddrInfo)
+  pure
+
+# psTryAdd: the only gate to the result channel
+funclit 0 in (dht *IpfsDHT) findProvidersAsyncRoutine(ctx context.Context, key multihash.Multihash, count int, peerOut chan peer.AddrInfo)
+  props C08
+  requires findAll == (count == 0) && count >= 0 && ps != nil
+  ensures [added-rule] imp(result, has(ps, p.ID) && ps[p.ID] == p && (!old(has(ps, p.ID)) || (len(old(ps[p.ID]).Addrs) == 0 && len(p.Addrs) > 0)) && (old(len(ps)) < count || findAll))
+  ensures [unchanged-otherwise] imp(!result, len(ps) == old(len(ps)) && allT(x, peer.ID, has(ps, x) == old(has(ps, x)) && ps[x] == old(ps[x])))
+  ensures [cap] imp(!findAll && old(len(ps)) <= count, len(ps) <= count)
+
+func (dht *IpfsDHT) findProvidersAsyncRoutine(ctx context.Context, key multihash.Multihash, count int, peerOut chan peer.AddrInfo)
+  props C08 C03
+  requires count >= 0 && cfgOK(dht)
+  ghostvar $ok bool = false
+  ghostvar $last peer.AddrInfo = any
+  chan_inv peerOut : $ok && $msg == $last
+  modifies *
+  ensures [closed] tagged("closed:peerOut")
+  ghost at call(psTryAdd): $ok = $ret0; $last = $arg0
+  ghost at before call(GetProviders): assert($arg1 == key)
+
+funclit 2 in (dht *IpfsDHT) findProvidersAsyncRoutine(ctx context.Context, key multihash.Multihash, count int, peerOut chan peer.AddrInfo)
+  props C08
+  ghostvar $ok bool = false
+  ghostvar $last peer.AddrInfo = any
+  chan_inv peerOut : $ok && $msg == $last
+  ghost at call(psTryAdd): $ok = $ret0; $last = $arg0
+  ghost at before call(GetProviders): assert($arg1 == p && $arg2 == key)
+
+funclit 4 in (dht *IpfsDHT) findProvidersAsyncRoutine(ctx context.Context, key multihash.Multihash, count int, peerOut chan peer.AddrInfo)
+  props C08
+  ghostvar $sz int = 0
+  ensures [internal-stop-rule] result0 == (!findAll && $sz >= count)
+  ghost at call(psSize): $sz = $ret0
+
+# ---- one lookup worker (C01, C03, C10, C12, C15) -------------------------------------
+func filterPeersByIPDiversity(newPeers []*peer.AddrInfo, limit int) []*peer.AddrInfo
+  props C10
+  requires all(i, 0, len(newPeers), newPeers[i] != nil)
+  ghostvar $src map[int]int = any
+  modifies nothing
+  ensures [shrinks] len(result) <= len(newPeers)
+  ensures [nonnil] all(i, 0, len(result), result[i] != nil)
+  loop 0 invariant ipGroupPeers != nil && fresh(ipGroupPeers) && allT(g, peerdiversity.PeerIPGroupKey, imp(has(ipGroupPeers, g), ipGroupPeers[g] != nil && fresh(ipGroupPeers[g])))
+  loop 1 invariant ipGroupPeers != nil && fresh(ipGroupPeers) && allT(g, peerdiversity.PeerIPGroupKey, imp(has(ipGroupPeers, g), ipGroupPeers[g] != nil && fresh(ipGroupPeers[g])))
+  loop 2 invariant peersToRemove != nil && fresh(peersToRemove)
+  loop 3 invariant peersToRemove != nil && fresh(peersToRemove)
+  loop 4 invariant len(filteredPeers) <= $key && all(i, 0, len(filteredPeers), filteredPeers[i] != nil)
+
+# query functions return no nil entry (contract of the messenger wrappers) and
+# the user-supplied query filter has no effect on DHT state: ASSUMED
+role queryFn(ctx context.Context, p peer.ID) ([]*peer.AddrInfo, error) in (q *query) queryPeer(ctx context.Context, ch chan<- *queryUpdate, p peer.ID)
+  modifies *
+  ensures all(i, 0, len(result0), result0[i] != nil)
+role queryPeerFilter(d any, ai peer.AddrInfo) bool in (q *query) queryPeer(ctx context.Context, ch chan<- *queryUpdate, p peer.ID)
+  pure
+
+func (dht *IpfsDHT) maybeAddAddrs(p peer.ID, addrs []ma.Multiaddr, ttl time.Duration)
+  props C15
+  ghostvar $f []ma.Multiaddr = nil
+  modifies nothing
+  ghost at before call(filterAddrs): assert($arg0 == addrs)
+  ghost at call(filterAddrs): $f = $ret0
+  ghost at before call(AddAddrs): assert($arg0 == p && $arg1 == $f && p != dht.self)
+
+func (q *query) queryPeer(ctx context.Context, ch chan<- *queryUpdate, p peer.ID)
+  props C01 C03 C10 C12 C15
+  requires q.dht != nil && cfgOK(q.dht)
+  ghostvar $nsent int = 0
+  ghostvar $dialErr error = nil
+  ghostvar $dialCtxErr error = nil
+  ghostvar $qErr error = nil
+  ghostvar $qCtxErr error = nil
+  ghostvar $filt bool = false
+  ghostvar $added bool = false
+  chan_inv ch : $msg != nil && $msg.cause == p && ((len($msg.unreachable) == 1 && $msg.unreachable[0] == p && len($msg.queried) == 0 && len($msg.heard) == 0) || (len($msg.queried) == 1 && $msg.queried[0] == p && len($msg.unreachable) == 0 && len($msg.heard) <= 2 * q.dht.bucketSize && all(i, 0, len($msg.heard), $msg.heard[i] != q.dht.self)))
+  modifies *
+  ensures [exactly-one-message] $nsent == 1
+  ensures [accounted] tagged("wgdone:q.waitGroup")
+  loop over newPeers invariant len(newPeers) <= 2 * q.dht.bucketSize && len(saw) <= $key && all(i, 0, len(saw), saw[i] != q.dht.self) && $nsent == 0
+  ghost at send(ch): $nsent = $nsent + 1
+  ghost at call(dialPeer): $dialErr = $ret0
+  ghost at before call(Err)#0: assert($recv == dialCtx)
+  ghost at call(Err)#0: $dialCtxErr = $ret0
+  ghost at before call(Err)#1: assert($recv == queryCtx)
+  ghost at call(Err)#1: $qCtxErr = $ret0
+  ghost at before call(queryFn): assert($arg0 == queryCtx && $arg1 == p && $dialErr == nil)
+  ghost at call(queryFn): $qErr = $ret1
+  ghost at before call(peerStoppedDHT)#0: assert($dialErr != nil && $dialCtxErr == nil && $arg0 == p)
+  ghost at before call(peerStoppedDHT)#1: assert($qErr != nil && $qCtxErr == nil && $arg0 == p)
+  ghost at before call(validPeerFound): assert($dialErr == nil && $qErr == nil && $arg0 == p)
+  ghost at call(queryPeerFilter): $filt = $ret0
+  ghost at before call(maybeAddAddrs): assert(isTarget || $filt); assert($arg0 == next.ID)
+  ghost at append(saw): assert(isTarget || $filt); assert(next.ID != q.dht.self)
+
+# ---- address scoping filters (C15) ------------------------------------------------
+func isRelayAddr(a ma.Multiaddr) bool
+  props C15
+  function
+func isPublicAddr(a ma.Multiaddr) bool
+  props C15
+  function
+
+func PublicQueryFilter(_ any, ai peer.AddrInfo) bool
+  props C15
+  modifies nothing
+  ensures [public-non-relay] result == ex(i, 0, len(ai.Addrs), !isRelayAddr(ai.Addrs[i]) && isPublicAddr(ai.Addrs[i]))
+  loop over ai.Addrs invariant hasPublicAddr == ex(i, 0, $key, !isRelayAddr(ai.Addrs[i]) && isPublicAddr(ai.Addrs[i]))
+
+func PrivateQueryFilter(_ any, ai peer.AddrInfo) bool
+  props C15
+  modifies nothing
+  ensures result == (len(ai.Addrs) > 0)
 @*/
